@@ -82,6 +82,60 @@ def samename_case(rec_a, rec_b, d, k, digest):
     return out
 
 
+def zgen_curve(env, z, generator=True):
+    """user-defined Curve whose base point is handed over in Jacobian form
+    (X, Y, Z) = (x z^2, y z^3, z), Z != 1 - a documented constructor form"""
+    from ecdsa import curves
+    from ecdsa import ellipticcurve as ec
+    t = env.toy
+    p = t.p
+    fp = t.lib_curvefp()
+    g = ec.PointJacobi(fp, t.G[0] * z * z % p, t.G[1] * z * z * z % p, z % p,
+                       t.n, generator=generator)
+    return curves.Curve("zgen", fp, g, (1, 3, 9999, 78, z))
+
+
+def zgen_case(rec, z, d, k, digest):
+    from ecdsa.keys import SigningKey
+    env = ecd.env_for(rec)
+    try:
+        c = zgen_curve(env, z)
+        sk = SigningKey.from_secret_exponent(d, c)
+        pub = sk.verifying_key.to_string()
+    except Exception as e:
+        pub = "%s: %s" % (type(e).__name__, e)
+    if pub != env.pub_bytes(d):
+        return ("zgen:pubkey", env.pub_bytes(d), pub)
+    exp = expected(env.n, env.baselen, digest, True, d, k, env.mult[k])
+    got = observe(sk, digest, k, True)
+    if exp[0] != "unspecified" and exp != got:
+        return ("zgen:sign:" + exp[0], exp, got)
+    return None
+
+
+def shard_zgen(arg):
+    rec, zs, ds, digests = arg
+    env = ecd.env_for(rec)
+    sh = Shard()
+    for z in zs:
+        for d in ds:
+            for k in range(1, env.n):
+                for dg in digests:
+                    sh.n += 1
+                    sh.nt += 1
+                    bad = zgen_case(rec, z, d, k, dg)
+                    if bad:
+                        sh.hist["fail:" + bad[0]] += 1
+                        sh.violation("zgen", bad[0],
+                                     dict(rec=rec, z=z, d=d, k=k, digest=dg),
+                                     bad[1], bad[2])
+                    else:
+                        sh.hist["zgen-ok"] += 1
+    sh.sample(dict(curve=[rec["p"], rec["a"], rec["b"]], generator_Z=zs,
+                   d=ds[0], k="1..n-1"), cap=1)
+    return sh
+
+
 def shard_toy(arg):
     rec, ds, ks, digests, truncs = arg
     from ecdsa.keys import SigningKey
@@ -247,6 +301,9 @@ def replay(check, case):
                             case["digest"])
     elif check == "pubkey":
         bad = pubkey_case(case["rec"], case["d"])
+    elif check == "zgen":
+        bad = zgen_case(case["rec"], case["z"], case["d"], case["k"],
+                        case["digest"])
     elif check == "real":
         bad = real_case(case["curve"], case["d"], case["k"], case["digest"],
                         case["allow_truncate"])
@@ -313,6 +370,12 @@ def main(ctx):
             jobs.append((shard_toy, "toy-bitlen-sweep-2byte-digests",
                          (t.rec(), ch, bd, dg2 + dg3, [True, False])))
         cover.append(t.name)
+    # (3b) base point given in Jacobian form with Z != 1
+    for t in tiny[:2] + ctx.rotate(tiny[2:], ctx.pick(1, 4)):
+        zs = [2, t.p - 1, t.p // 2]
+        for ch in common.chunks(list(range(1, t.n)), 4):
+            jobs.append((shard_zgen, "toy-jacobian-base-point",
+                         (t.rec(), zs, ch, [b"\x05", b"\xff"])))
     # (4) real curves
     names = catalog.REAL_NAMES if not ctx.quick else [
         "SECP112r2", "SECP160r1", "NIST256p", "BRAINPOOLP320r1", "NIST521p"]
@@ -341,7 +404,8 @@ def main(ctx):
         "1-byte digests + structured lengths 1..baselen+3) x {truncate on, "
         "off}; 8-9 bit orders all d x all k x structured digests; one curve "
         "per order bit length 3..17 (n<p and n>p) boundary d,k x all 1-/2-byte "
-        "digests; production alphabet on real curves. Non-trivial = specified "
+        "digests; base point handed over in Jacobian form (Z in {2, p-1, "
+        "p//2}) all d x all k; production alphabet on real curves. Non-trivial = specified "
         "by the property (the 'fits in bytes, more bits than n, truncation "
         "off' corner is counted as unspecified and not judged). Distinct by "
         "construction.")
